@@ -85,6 +85,24 @@ impl Pay for NodeId {
     }
 }
 
+impl Pay for &'static NodeId {
+    /// a *reference* to an id of a foreign arena: a value like any other (an outline arena whose payloads
+    /// point into a list of ids kept elsewhere)
+    fn of(code: u32) -> &'static NodeId {
+        thread_local! { static LEAKED: &'static [NodeId] = FOREIGN.with(|f| &*Box::leak(f.1.clone().into_boxed_slice())); }
+        LEAKED.with(|l| &l[(code % 7) as usize])
+    }
+}
+
+/// for entries spelled as a method call on a RefCell guard (a temporary in tail position)
+pub struct Noter;
+impl Noter {
+    pub fn note<P: Pay>(&mut self, k: u32, code: u32) -> P {
+        log(k);
+        P::of(code)
+    }
+}
+
 /// Root forms: 0 = value (no pre-existing node), 1 = fresh NodeId, 2 = NodeId with two children,
 /// 3 = NodeId that is itself a middle child (and has one child of its own)
 pub fn setup<P: Pay>(arena: &mut Arena<P>, form: u32) -> (Option<NodeId>, Vec<u32>) {
